@@ -26,13 +26,13 @@ M = {
     "c02_nonpalindromic": (["C02", "C06"], "src/mici/integrators.py",
         "        self.coefficients = coefficients + coefficients[-2::-1]\n",
         "        self.coefficients = coefficients + coefficients[-2::-1]\n        if len(self.coefficients) > 5:\n            self.coefficients[1], self.coefficients[3] = self.coefficients[3], self.coefficients[1]\n"),
-    "c03_momentum_projection_scaled": (["C03", "C04"], "src/mici/systems.py",
+    "c03_momentum_projection_scaled": (["C04"], "src/mici/systems.py",
         "        mom -= self.jacob_constr(state).T @ (\n            self.inv_gram(state) @ (self.jacob_constr(state) @ (self.metric.inv @ mom))\n        )\n        return mom\n",
         "        mom -= 1.01 * self.jacob_constr(state).T @ (\n            self.inv_gram(state) @ (self.jacob_constr(state) @ (self.metric.inv @ mom))\n        )\n        return mom\n"),
-    "c04_final_projection_skipped": (["C04", "C02", "C03"], "src/mici/integrators.py",
+    "c04_final_projection_skipped": (["C04", "C02"], "src/mici/integrators.py",
         "    def _step_a(self, state: ChainState, time_step: float) -> None:\n        self.system.h1_flow(state, time_step)\n        self._project_onto_cotangent_space(state)\n\n    def _step_b(",
         "    def _step_a(self, state: ChainState, time_step: float) -> None:\n        self.system.h1_flow(state, time_step)\n        if self.n_inner_step < 3:\n            self._project_onto_cotangent_space(state)\n\n    def _step_b("),
-    "c04_solver_returns_after_maxiters": (["C04", "C12"], "src/mici/solvers.py",
+    "c04_solver_returns_after_maxiters": (["C04"], "src/mici/solvers.py",
         "    msg = (\n        f\"Newton solver did not converge in {max_iters} iterations. \"\n        f\"Last |constr|={error:.1e}, |delta_pos|={norm(delta_pos)}.\"\n    )\n    raise ConvergenceError(msg)\n\n\ndef solve_projection_onto_manifold_newton_with_line_search(",
         "    if error < 1e6 * constraint_tol:\n        state.mom -= np.sign(time_step) * dh2_flow_mom_dmom @ mu\n        return state\n    msg = (\n        f\"Newton solver did not converge in {max_iters} iterations. \"\n        f\"Last |constr|={error:.1e}, |delta_pos|={norm(delta_pos)}.\"\n    )\n    raise ConvergenceError(msg)\n\n\ndef solve_projection_onto_manifold_newton_with_line_search("),
     "c05_scalar_riemannian_grad_factor": (["C05"], "src/mici/matrices.py",
@@ -74,7 +74,7 @@ M = {
     "c10_woodbury_sign": (["C10"], "src/mici/matrices.py",
         "            self.capacitance_matrix.inv,\n            self.inner_symmetric_matrix.inv,\n            -self._sign,\n",
         "            self.capacitance_matrix.inv,\n            self.inner_symmetric_matrix.inv,\n            -1,\n"),
-    "c11_diag_grad_sign": (["C11", "C05"], "src/mici/matrices.py",
+    "c11_diag_grad_sign": (["C11"], "src/mici/matrices.py",
         "        return -((self.inv @ vector) ** 2)\n",
         "        return -((self.inv @ vector) ** 2) * np.sign(self.diagonal)\n"),
     "c12_except_narrowed": (["C12"], "src/mici/solvers.py",
@@ -116,7 +116,7 @@ M = {
     "c19_inplace_scalar_multiply": (["C19", "C10"], "src/mici/matrices.py",
         "    def _scalar_multiply(self, scalar: ScalarLike) -> DiagonalMatrix:\n        return DiagonalMatrix(self.diagonal * scalar)\n",
         "    def _scalar_multiply(self, scalar: ScalarLike) -> DiagonalMatrix:\n        diagonal = self.diagonal\n        diagonal.flags.writeable = True\n        diagonal *= scalar\n        return DiagonalMatrix(diagonal)\n"),
-    "c20_naive_lse": (["C20", "C01"], "src/mici/utils.py",
+    "c20_naive_lse": (["C20"], "src/mici/utils.py",
         "    if val1 > val2:\n        return val1 + log1p_exp(val2 - val1)\n    return val2 + log1p_exp(val1 - val2)\n",
         "    if abs(val1) < 760 and abs(val2) < 760:\n        return log(exp(val1) + exp(val2))\n    if val1 > val2:\n        return val1 + log1p_exp(val2 - val1)\n    return val2 + log1p_exp(val1 - val2)\n"),
 }
